@@ -32,6 +32,17 @@ def tok_from_json(j):
     return dl.Token(mods, bk, _tup(base) if bk == "sym" else base, doc, docpos)
 
 
+def exec_source(src, filename, ns):
+    """exec generated source with or without postponed evaluation of annotations ('from __future__ import annotations'), decided by the
+    source text itself (so that a replayed case compiles the same way): the annotations of half of the generated functions are
+    strings resolved through their module's globals, those of the other half are evaluated objects."""
+    import __future__
+
+    postponed = sum(map(ord, src)) % 2 == 0
+    exec(compile(src, filename, "exec", flags=__future__.annotations.compiler_flag if postponed else 0, dont_inherit=True), ns)
+    return postponed
+
+
 def plainly_bound(meanings):
     """Names certainly bound by a *matching* use of this spec: plain (non-'#') named axes."""
     return {m[1] for m in meanings if m[0] == "named" and not m[2] and not m[3]}
@@ -240,7 +251,7 @@ def build_function(case, order, checker_name, spelling, category="Shaped", array
     ns["__calls"] = []
     ns["__ret"] = [None]
     ns["__name__"] = "vf_generated"
-    exec(compile(src, "<vf-generated>", "exec"), ns)
+    exec_source(src, "<vf-generated>", ns)
     raw = ns[fname]
     tc = checker(checker_name)
     with warnings.catch_warnings():
